@@ -90,7 +90,7 @@ for _pid in PROPS:
 for _pid in ("C01", "C02"):
     PROPS[_pid]["theorem_modules"] = PROPS[_pid]["theorem_modules"] + ["DecProofs.Properties.C02RoundHelpers"]
 for _pid in ("C01", "C02", "C03"):
-    PROPS[_pid]["theorem_modules"] = PROPS[_pid]["theorem_modules"] + ["DecProofs.Properties.C01ArithHelpers"]
+    PROPS[_pid]["theorem_modules"] = PROPS[_pid]["theorem_modules"] + ["DecProofs.Properties.C01ArithHelpers", "DecProofs.Properties.C01GenArith"]
 # theorems about the TRANSLATED SOURCE (Dec.Gen.Code.*, regenerated every run)
 for _pid in ("C03", "C06", "C09", "C11", "C13"):
     PROPS[_pid]["theorem_modules"] = PROPS[_pid]["theorem_modules"] + ["DecProofs.Properties.C06GenFromInt"]
